@@ -63,6 +63,9 @@ type Device struct {
 	Fired          map[string]int
 	MaxStall       int
 	stallRun       int
+	longLeft       int
+	longDone       map[int]bool
+	reads          int
 	Log            *core.Log
 }
 
@@ -89,13 +92,13 @@ func (d *Device) next(n int) []byte {
 // MaxCalls bounds the reads of one device: a caller that keeps reading from a source
 // that has failed, or never accepts a candidate, does not terminate. The bound turns
 // that into a panic the executor reports, instead of a hung worker.
-const MaxCalls = 20000
+const MaxCalls = 100000
 
 func (d *Device) Read(p []byte) (int, error) {
 	call := d.Calls
 	d.Calls++
-	if d.Calls > MaxCalls {
-		panic("randomness device: more than 20000 reads by one call: the call does not terminate")
+	if d.Calls > MaxCalls+64*len(d.program)+len(d.prefix) {
+		panic("randomness device: far more reads by one call than its stream and fault program can explain: the call does not terminate")
 	}
 	if d.failed != nil {
 		d.Fired["sticky-err"]++
@@ -116,6 +119,30 @@ func (d *Device) Read(p []byte) (int, error) {
 			d.stallRun++
 			d.Fired["stall"]++
 			d.log("read#%d len=%d -> 0,nil (stall)", call, len(p))
+			return 0, nil
+		}
+		st.Kind = "full"
+	case "longstall":
+		// N consecutive empty reads from this one program step: a source that makes no
+		// progress for a long while (but finitely long) and then carries on
+		if d.longLeft == 0 && !d.longDone[call] {
+			d.longLeft = st.N
+			if d.longLeft > 2000 {
+				d.longLeft = 2000
+			}
+			if d.longDone == nil {
+				d.longDone = map[int]bool{}
+			}
+			d.longDone[call] = true
+		}
+		if d.longLeft > 0 {
+			d.longLeft--
+			d.Calls-- // stay on this program step until the stall is over
+			d.reads++
+			if d.reads > MaxCalls {
+				panic("randomness device: far more reads by one call than its stream and fault program can explain: the call does not terminate")
+			}
+			d.Fired["long-stall-read"]++
 			return 0, nil
 		}
 		st.Kind = "full"
